@@ -58,6 +58,10 @@ def check(ctx):
     r = ctx.tlc("LineEdit", "LineEditMCthorough.cfg" if ctx.thorough else "LineEditMC.cfg", workers=16, timeout=1500)
     if not r.ok:
         ctx.model_violation(r, "LineEdit invariants")
+    if ctx.thorough:   # beyond the exhaustive bound: random behaviours with capacities 5 and 8, history depth 3
+        r = ctx.tlc("LineEdit", "LineEditSim.cfg", workers=16, simulate=20000, depth=80, coverage=False, timeout=1500)
+        if not r.ok:
+            ctx.model_violation(r, "LineEdit invariants (simulation)")
     r, g = ctx.tlc_graph("LineEdit", "LineEditMC.cfg", workers=8)
     walks, ncov, total = core.edge_cover_walks(g, ctx.rng, max_len=400)
     ctx.extra["edges_total"] = total; ctx.extra["edges_replayed"] = ncov
